@@ -187,4 +187,8 @@ def run(repo, tier) -> Result:
 
     check_registry_writers("C08", res, repo)
     check_manager_purge("C08", res, repo)
+    from ..framework_rules import check_regkey, check_registry_order
+
+    check_regkey("C08", res, repo)
+    check_registry_order("C08", res, repo)
     return res
